@@ -74,6 +74,16 @@ type Scenario struct {
 	Extra    string  `json:"extra,omitempty"`
 	Inject   *InjectSpec `json:"inject,omitempty"`
 	Solo     *SoloSpec   `json:"solo,omitempty"`
+	// ValChange: the application changes one validator's voting power in EndBlock of
+	// block Height (the new set is in force from Height+1 on)
+	ValChange *ValChange `json:"val_change,omitempty"`
+}
+
+// ValChange describes one validator-set change.
+type ValChange struct {
+	Height int64 `json:"height"`
+	Index  int   `json:"index"`
+	Power  int64 `json:"power"`
 }
 
 func (sc *Scenario) partSize() int {
@@ -88,6 +98,9 @@ func (sc *Scenario) String() string {
 		return fmt.Sprintf("solo node %d script %v", sc.Solo.Node, sc.Solo.Steps)
 	}
 	s := fmt.Sprintf("powers=%v byz=%d heights=%d rules=[", sc.Powers, sc.Byz, sc.Heights)
+	if sc.ValChange != nil {
+		s = fmt.Sprintf("powers=%v (validator %d -> power %d in block %d) byz=%d heights=%d rules=[", sc.Powers, sc.ValChange.Index, sc.ValChange.Power, sc.ValChange.Height, sc.Byz, sc.Heights)
+	}
 	for i, r := range sc.Rules {
 		if i > 0 {
 			s += " "
